@@ -70,10 +70,10 @@ theorem tail_spec {env : MEnv} (hwf : WF env = true) (hc : classesOK env = true)
     | some (h', c, hid, n) =>
       ∃ st2, tailRun env sref kind fuel st rem v = (st2, .ok c) ∧ st2.heap = h' ∧
         st2.calls = st.calls + n ∧ st2.hidden = (st.hidden || hid) ∧ Pres st.heap h' ∧
-        st.heap.length ≤ h'.length
+        st.heap.length ≤ h'.length ∧ LogExt st.heap.length st.log st2.log
     | none =>
       ∃ st2 e, tailRun env sref kind fuel st rem v = (st2, .error e) ∧ Pres st.heap st2.heap ∧
-        st.heap.length ≤ st2.heap.length := by
+        st.heap.length ≤ st2.heap.length ∧ LogExt st.heap.length st.log st2.log := by
   obtain ⟨hwf1, hx, _, _, _, _⟩ := WF_parts hwf
   intro rem
   induction rem with
@@ -90,7 +90,7 @@ theorem tail_spec {env : MEnv} (hwf : WF env = true) (hc : classesOK env = true)
       have : buildTail env kind v (s :: rest) st.heap = none := by
         cases rest <;> simp [buildTail, hfo]
       rw [this]
-      exact ⟨_, _, rfl, Pres.refl _, Nat.le_refl _⟩
+      exact ⟨_, _, rfl, Pres.refl _, Nat.le_refl _, LogExt.refl _ _⟩
     | some o =>
       simp only []
       have hoe := freshObj_empty hfo
@@ -102,6 +102,9 @@ theorem tail_spec {env : MEnv} (hwf : WF env = true) (hc : classesOK env = true)
       have hfresh : st1.heap[st.heap.length]? = some o := by simp [h1h]
       have hp1 : Pres st.heap st1.heap := by rw [h1h]; exact Pres.append _ _
       have hev : evalVal env st1 (.ref st.heap.length) (.val v) = (st1, .ok v) := rfl
+      have hlog1 : LogExt st.heap.length st.log st1.log := by
+        subst hst1
+        exact ⟨[.alloc st.heap.length], rfl, by simp [evNew]⟩
       cases rest with
       | nil =>
         -- the final step on the fresh object
@@ -114,15 +117,16 @@ theorem tail_spec {env : MEnv} (hwf : WF env = true) (hc : classesOK env = true)
           List.length_nil, applyForEach, beq_self_eq_true, if_true, buildTail, hfo]
         rw [assignOp_eq hwf hfin, h1h]
         cases hr : refAssignOp env (st.heap ++ [o]) s.1 (.ref st.heap.length) s.2 v with
-        | none => exact ⟨_, _, rfl, hp1, by simp [h1h]⟩
+        | none => exact ⟨_, _, rfl, hp1, by simp [h1h], hlog1⟩
         | some r =>
           cases r with
-          | error e => exact ⟨_, _, rfl, hp1, by simp [h1h]⟩
+          | error e => exact ⟨_, _, rfl, hp1, by simp [h1h], hlog1⟩
           | ok w =>
             have hfr := refAssignOp_frame hr
-            refine ⟨_, rfl, rfl, by simp [St.wrote, h1c], by simp [St.wrote, h1hid], ?_, ?_⟩
+            refine ⟨_, rfl, rfl, by simp [St.wrote, h1c], by simp [St.wrote, h1hid], ?_, ?_, ?_⟩
             · exact frameAt_pres hfr (Nat.le_refl _) (Pres.append _ _)
             · rw [hfr.1]; simp
+            · exact wrote_logExt (refAssignOp_cell hr) (Nat.le_refl _) hlog1
       | cons s' rest' =>
         cases hl : (s :: s' :: rest').getLast? with
         | none => simp at hl
@@ -145,7 +149,7 @@ theorem tail_spec {env : MEnv} (hwf : WF env = true) (hc : classesOK env = true)
           simp only [hdl, stars_cons_x, applyForEach, Nat.add_eq_zero_iff, Nat.one_ne_zero, and_false,
             beq_iff_eq, if_false, Nat.add_sub_cancel, flattenN_nil, forEach, buildTail, hfo,
             beq_self_eq_true, if_true]
-          exact ⟨_, rfl, h1h, h1c, by simp [h1hid], Pres.append _ _, by simp⟩
+          exact ⟨_, rfl, h1h, h1c, by simp [h1hid], Pres.append _ _, by simp, hlog1⟩
         · -- an access step on the fresh, empty object fails: the next factory call
           obtain ⟨r, hr, hf⟩ := fetch_access hwf1 hc st1.heap s.1 s.2 (s' :: rest').dropLast 0
             (.ref st.heap.length) hsw
@@ -169,36 +173,39 @@ theorem tail_spec {env : MEnv} (hwf : WF env = true) (hc : classesOK env = true)
           cases hbt : buildTail env kind v (s' :: rest') st1.heap with
           | none =>
             rw [hbt] at ihs
-            obtain ⟨st2, e', hrun, hp2, hl2⟩ := ihs
+            obtain ⟨st2, e', hrun, hp2, hl2, hlg2⟩ := ihs
             simp only [hrun]
-            exact ⟨_, _, rfl, Pres.trans hp1 hp2 (by rw [h1h]; simp), by rw [h1h] at hl2; simp at hl2; omega⟩
+            exact ⟨_, _, rfl, Pres.trans hp1 hp2 (by rw [h1h]; simp), by rw [h1h] at hl2; simp at hl2; omega,
+              hlog1.trans hlg2 (by rw [h1h]; simp)⟩
           | some res =>
             obtain ⟨h1', inner, hid, n⟩ := res
             rw [hbt] at ihs
-            obtain ⟨st2, hrun, hh2, hc2, hhid2, hp2, hl2⟩ := ihs
+            obtain ⟨st2, hrun, hh2, hc2, hhid2, hp2, hl2, hlg2⟩ := ihs
+            have hlog2 : LogExt st.heap.length st.log st2.log := hlog1.trans hlg2 (by rw [h1h]; simp)
             simp only [hrun]
             have hfe2 : fetch env st2.heap [] 0 (.ref st.heap.length) = .ok (.leaf (.ref st.heap.length)) := rfl
             simp only [hfe2, stars, List.filter_nil, List.length_nil, applyForEach, beq_self_eq_true, if_true]
             rw [assignOp_eq hwf (finalOk_of_wfSteps hsw), hh2]
             cases hra : refAssignOp env h1' s.1 (.ref st.heap.length) s.2 inner with
             | none =>
-              refine ⟨_, _, rfl, ?_, ?_⟩
+              refine ⟨_, _, rfl, ?_, ?_, hlog2⟩
               · rw [hh2]; exact Pres.trans hp1 hp2 (by rw [h1h]; simp)
               · rw [hh2]; rw [h1h] at hl2; simp at hl2; omega
             | some ra =>
               cases ra with
               | error e' =>
-                refine ⟨_, _, rfl, ?_, ?_⟩
+                refine ⟨_, _, rfl, ?_, ?_, hlog2⟩
                 · rw [hh2]; exact Pres.trans hp1 hp2 (by rw [h1h]; simp)
                 · rw [hh2]; rw [h1h] at hl2; simp at hl2; omega
               | ok w =>
                 have hfr := refAssignOp_frame hra
                 have hp12 : Pres st.heap h1' := Pres.trans hp1 hp2 (by rw [h1h]; simp)
-                refine ⟨_, rfl, rfl, ?_, ?_, ?_, ?_⟩
+                refine ⟨_, rfl, rfl, ?_, ?_, ?_, ?_, ?_⟩
                 · simp [St.wrote, hc2, h1c]; omega
                 · simp [St.wrote, hhid2, h1hid, Bool.or_assoc]
                 · exact frameAt_pres hfr (Nat.le_refl _) hp12
                 · rw [hfr.1]; rw [h1h] at hl2; simp at hl2; omega
+                · exact wrote_logExt (refAssignOp_cell hra) (Nat.le_refl _) hlog2
 
 end Glom.C11
 
